@@ -233,6 +233,11 @@ func (p *Program) CalleesOf(ci ssa.CallInstruction) []*ssa.Function {
 	if f := StaticFn(c); f != nil {
 		return []*ssa.Function{lookThroughWrapper(f)}
 	}
+	if !c.IsInvoke() {
+		// a call of a function value: a parameter or captured variable of function
+		// type is resolved to the closures/functions passed at the module's call sites
+		return p.resolveFuncValue(c.Value, 0, map[ssa.Value]bool{})
+	}
 	if c.IsInvoke() {
 		g := p.CG()
 		_ = g
@@ -279,4 +284,73 @@ func (p *Program) CalleesOf(ci ssa.CallInstruction) []*ssa.Function {
 func (p *Program) VTA() *callgraph.Graph {
 	all := ssautil.AllFunctions(p.Prog)
 	return vta.CallGraph(all, cha.CallGraph(p.Prog))
+}
+
+// resolveFuncValue: the module functions a function-typed value may denote,
+// following parameters to the actual arguments at all static call sites,
+// captured variables to their bindings and locals to their stores.
+func (p *Program) resolveFuncValue(v ssa.Value, d int, seen map[ssa.Value]bool) []*ssa.Function {
+	if v == nil || d > 6 || seen[v] {
+		return nil
+	}
+	seen[v] = true
+	var out []*ssa.Function
+	add := func(fs ...*ssa.Function) {
+		for _, f := range fs {
+			dup := false
+			for _, x := range out {
+				dup = dup || x == f
+			}
+			if !dup && f != nil {
+				out = append(out, f)
+			}
+		}
+	}
+	fromCell := func(cell ssa.Value) {
+		for _, st := range Stores(cell) {
+			add(p.resolveFuncValue(st.Val, d+1, seen)...)
+		}
+	}
+	switch x := v.(type) {
+	case *ssa.Function:
+		add(lookThroughWrapper(x))
+	case *ssa.MakeClosure:
+		if f, ok := x.Fn.(*ssa.Function); ok {
+			add(lookThroughWrapper(f))
+		}
+	case *ssa.Phi:
+		for _, e := range x.Edges {
+			add(p.resolveFuncValue(e, d+1, seen)...)
+		}
+	case *ssa.ChangeType:
+		add(p.resolveFuncValue(x.X, d+1, seen)...)
+	case *ssa.UnOp:
+		switch a := x.X.(type) {
+		case *ssa.Alloc:
+			fromCell(a)
+		case *ssa.FreeVar:
+			if b := FreeVarBinding(a); b != nil {
+				if al, ok := b.(*ssa.Alloc); ok {
+					fromCell(al)
+				} else {
+					add(p.resolveFuncValue(b, d+1, seen)...)
+				}
+			}
+		}
+	case *ssa.FreeVar:
+		if b := FreeVarBinding(x); b != nil {
+			add(p.resolveFuncValue(b, d+1, seen)...)
+		}
+	case *ssa.Parameter:
+		f := x.Parent()
+		if f == nil {
+			return nil
+		}
+		for _, cs := range p.CallersOf(f) {
+			if a := ActualFor(cs, x); a != nil {
+				add(p.resolveFuncValue(a, d+1, seen)...)
+			}
+		}
+	}
+	return out
 }
